@@ -45,6 +45,8 @@ func translate(pkgPatterns []string, outRootDir string, modDir string,
 	}
 
 	someError := false
+	// output file -> the package it was written for
+	written := make(map[string]string)
 	for i, f := range fs {
 		err := errs[i]
 		if err != nil {
@@ -58,6 +60,15 @@ func translate(pkgPatterns []string, outRootDir string, modDir string,
 		}
 		outFile := path.Join(outRootDir,
 			coq.ImportToPath(f.PkgPath, f.GoPackage))
+		if other, ok := written[outFile]; ok {
+			// '.', '-' and '_' all map to '_': do not overwrite the other
+			// package's translation
+			fmt.Fprintln(os.Stderr, red(fmt.Sprintf(
+				"packages %s and %s both map to the output file %s", other, f.PkgPath, outFile)))
+			someError = true
+			continue
+		}
+		written[outFile] = f.PkgPath
 		outDir := path.Dir(outFile)
 		err = os.MkdirAll(outDir, 0777)
 		if err != nil {
